@@ -189,6 +189,11 @@ def ob_accepted(h, shape):
                 for i in range(len(cover)):
                     for j in range(i + 1, len(cover)):
                         overlap_alts.append(z3.And(cover[i], cover[j]))
+                # the line counts for the session blame reports for it: the last entry of the file that lists it
+                ecov = [(hk, z3.Or([in_range(r, l) for r in rs]) if rs else z3.BoolVal(False)) for hk, rs in allranges]
+                for i, (hk, c) in enumerate(ecov):
+                    owns = z3.And([c] + [z3.Not(c2) for _, c2 in ecov[i + 1:]])
+                    expected_by_hash[hashes[hk]] = expected_by_hash[hashes[hk]] + z3.If(owns, z3.BitVecVal(1, 32), z3.BitVecVal(0, 32))
     log = mk_log(M, files, prompts)
     h.inputs_struct = desc
     is_merge = bool(shape.get('merge'))
@@ -214,6 +219,15 @@ def ob_accepted(h, shape):
         for k, v in per_tool.ent:
             s = s + tgt(v).z()
         h.require(s == total.z(), 'S1-per-tool-sums-to-total', 'per-tool accepted does not sum to the total', [])
+    # each tool is credited with the lines of its sessions (a line listed by two sessions counts for the later entry)
+    want_tool = {'cursor::m1': expected_by_hash[hashes[0]]}
+    if h1_present:
+        k = 'cursor::m1' if same_tool else 'claude::m1'
+        want_tool[k] = want_tool.get(k, z3.BitVecVal(0, 32)) + expected_by_hash[hashes[1]]
+    got_tool = {bytes(concrete_bytes(as_bytes(k))).decode(): tgt(v).z() for k, v in per_tool.ent}
+    ok_tools = [got_tool.get(k, z3.BitVecVal(0, 32)) == w for k, w in want_tool.items()] + [z3.BoolVal(k in want_tool) for k in got_tool]
+    h.require(z3.And(ok_tools), 'S1-tool-is-credited-with-its-sessions-lines',
+              'the per-tool accepted counts are not the lines whose (last listing) session belongs to that tool')
     h.sample = h.witness()
 
 
